@@ -1143,6 +1143,9 @@ package tree
 // ---------------------------------------------------------------------------
 
 //@ func (*tree.Tree).UnRoot
+//@   flag countcalls
+//@   call (*tree.Edge).SetSupport [the_merging_branch_takes_the_larger_of_the_two_root_branch_supports] a0 == e3 && a1 == max(max(0.0, e1.support), max(0.0, e2.support))
+//@   return [a_support_is_transferred_exactly_when_either_root_branch_has_one_and_both_ends_are_inner_nodes] ghost(ncalls_SetSupport) == old(ghost(ncalls_SetSupport)) + ((len(n1.neigh) != 1 && len(n2.neigh) != 1 && (e1.support != -1.0 || e2.support != -1.0)) ? 1 : 0)
 //@   flag noframe
 //@   requires t != nil && allocated(t.root) && INV()
 //@   ensures [an_unrooted_tree_is_left_alone] old(deg(t.root)) != 2 ==> t.root == old(t.root) && deg(t.root) == old(deg(t.root))
